@@ -20,23 +20,46 @@ Section Main3.
   Variable rdecls : list rdecl.
   Variable tn : bool.
 
-  (* induction over the depth of the plan tree: positions and fields together *)
-  Lemma PS_FL_all U eQ F :
+  (* induction over the depth of the plan tree: positions and the two kinds of fields together *)
+  Lemma PS_FL_all ab U eQ F :
     find_entity U (s_query sc) [] = Some eQ ->
     forallb (fun vd => not_repr (vd_name vd)) vdsM = true ->
     forallb (config_wf_b sc) subs = true ->
     univ3_contract_b sc subs decls rdecls U = true ->
-    forall k, PS_at U sc subs vdsM supM F kq tn decls rdecls k /\ FL_at U sc subs vdsM supM F kq tn decls rdecls k.
+    (ab = true -> types_ok_b sc U = true) ->
+    forall k, PS_at U sc subs vdsM supM F kq tn decls rdecls ab k /\ FL_at U sc subs vdsM supM F kq tn decls rdecls ab k /\
+              FA_at U sc subs vdsM supM F kq tn decls rdecls ab k.
   Proof.
-    intros HeQ Hnr Hwfs Hc. induction k as [|k [IHP IHF]].
-    - split.
+    intros HeQ Hnr Hwfs Hc Hty. induction k as [|k (IHP & IHF & IHA)].
+    - split; [|split].
       + intros T pt e p Hst. discriminate.
       + intros T e a n args sh T' sub p q Hst. discriminate.
-    - split.
-      + apply (PS_step U sc subs vdsM supM eQ F kq tn decls rdecls k HeQ Hnr Hwfs Hc IHF).
-      + apply (FL_step U sc subs vdsM supM F kq tn decls rdecls k IHP).
+      + intros T e a n args sh T' csel rsel alts p q Hst. discriminate.
+    - split; [|split].
+      + apply (PS_step U sc subs vdsM supM eQ F kq tn decls rdecls ab k HeQ Hnr Hwfs Hc IHF IHA).
+      + apply (FL_step U sc subs vdsM supM F kq tn decls rdecls ab k IHP).
+      + apply (FA_step U sc subs vdsM supM F kq tn decls rdecls ab k Hty IHP).
   Qed.
 
+  Lemma tvg_sound ab k ds :
+    tvg_static_b sc subs [] vdsM supM kq ab decls rdecls k ds = true ->
+    forall (U : universe) (eQ : entity),
+      univ3_contract_b sc subs decls rdecls U = true ->
+      (ab = true -> types_ok_b sc U = true) ->
+      find_entity U (s_query sc) [] = Some eQ ->
+      forall F : nat, (ds_need sc ds <= F)%nat ->
+        sres_weq (gateway3 U sc subs [] vdsM supM eQ F F tn k ds) (mono_client3 U sc [] vdsM supM eQ F ds).
+  Proof.
+    intros Hok U eQ Hc Hty HeQ F HF.
+    pose proof Hok as Hok'. unfold tvg_static_b in Hok'.
+    apply andb_true_iff in Hok'. destruct Hok' as [Hok' _].
+    apply andb_true_iff in Hok'. destruct Hok' as [Hok' Hnr].
+    apply andb_true_iff in Hok'. destruct Hok' as [Hwfs _].
+    destruct (PS_FL_all ab U eQ F HeQ Hnr Hwfs Hc Hty k) as (_ & HFL & HFA).
+    apply (root3_sound U sc subs vdsM supM eQ F kq tn decls rdecls ab k HeQ Hc HFL HFA ds Hok HF).
+  Qed.
+
+  (* plan trees without positions resolved per runtime type *)
   Theorem tv3_sound k ds :
     tv3_static_b sc subs [] vdsM supM kq decls rdecls k ds = true ->
     forall (U : universe) (eQ : entity),
@@ -45,13 +68,20 @@ Section Main3.
       forall F : nat, (ds_need sc ds <= F)%nat ->
         sres_weq (gateway3 U sc subs [] vdsM supM eQ F F tn k ds) (mono_client3 U sc [] vdsM supM eQ F ds).
   Proof.
-    intros Hok U eQ Hc HeQ F HF.
-    pose proof Hok as Hok'. unfold tv3_static_b in Hok'.
-    apply andb_true_iff in Hok'. destruct Hok' as [Hok' _].
-    apply andb_true_iff in Hok'. destruct Hok' as [Hok' Hnr].
-    apply andb_true_iff in Hok'. destruct Hok' as [Hwfs _].
-    destruct (PS_FL_all U eQ F HeQ Hnr Hwfs Hc k) as [_ HFL].
-    apply (root3_sound U sc subs vdsM supM eQ F kq tn decls rdecls k HeQ Hc HFL ds Hok HF).
+    intros Hok U eQ Hc HeQ F HF. apply (tvg_sound false k ds Hok U eQ Hc); [discriminate|exact HeQ|exact HF].
+  Qed.
+
+  (* plan trees with positions resolved per runtime type (interface / union positions) *)
+  Theorem tv4_sound k ds :
+    tv4_static_b sc subs [] vdsM supM kq decls rdecls k ds = true ->
+    forall (U : universe) (eQ : entity),
+      univ4_contract_b sc subs decls rdecls U = true ->
+      find_entity U (s_query sc) [] = Some eQ ->
+      forall F : nat, (ds_need sc ds <= F)%nat ->
+        sres_weq (gateway3 U sc subs [] vdsM supM eQ F F tn k ds) (mono_client3 U sc [] vdsM supM eQ F ds).
+  Proof.
+    intros Hok U eQ Hc HeQ F HF. unfold univ4_contract_b in Hc. apply andb_true_iff in Hc. destruct Hc as [Hc Hty].
+    apply (tvg_sound true k ds Hok U eQ Hc); [intros _; exact Hty|exact HeQ|exact HF].
   Qed.
 
   (* the same with the monolith as [execute] on the client's document *)
@@ -68,6 +98,21 @@ Section Main3.
     unfold client_doc3. rewrite (execute_query F sc U Mono vdsM _ [] (JObj supM) eQ HeQ). rewrite sres_response_id.
     apply (tv3_sound k ds Hok U eQ Hc HeQ F HF).
   Qed.
+  Theorem tv4_sound_execute k ds :
+    tv4_static_b sc subs [] vdsM supM kq decls rdecls k ds = true ->
+    forall (U : universe) (eQ : entity),
+      univ4_contract_b sc subs decls rdecls U = true ->
+      find_entity U (s_query sc) [] = Some eQ ->
+      forall F : nat, (ds_need sc ds <= F)%nat ->
+        sres_weq (gateway3 U sc subs [] vdsM supM eQ F F tn k ds)
+                 (sres_of_response (execute F sc U Mono (client_doc3 vdsM [] ds) None (JObj supM))).
+  Proof.
+    intros Hok U eQ Hc HeQ F HF.
+    unfold client_doc3. rewrite (execute_query F sc U Mono vdsM _ [] (JObj supM) eQ HeQ). rewrite sres_response_id.
+    apply (tv4_sound k ds Hok U eQ Hc HeQ F HF).
+  Qed.
 End Main3.
 Print Assumptions tv3_sound.
 Print Assumptions tv3_sound_execute.
+Print Assumptions tv4_sound.
+Print Assumptions tv4_sound_execute.
